@@ -5,6 +5,10 @@ V = os.path.dirname(os.path.dirname(os.path.abspath(__file__)))
 props = [json.loads(l) for l in open(os.path.join(V, "properties.jsonl"))]
 
 CLAIMED = {
+ "C18": dict(
+  technique="rapid-generated multi-file workspaces from the model; published warnings compared with declarations/uses known by construction; metamorphic switch law over the 8 settings combinations",
+  text="Workspaces of 1..3 journals are generated with account/commodity directives placed in the current file, an included file, a workspace sibling or nowhere, and accounts in the classes declared / child of declared / near-miss sibling / standard category (any case) / unrelated. After didOpen the UNDECLARED_ACCOUNT warnings must sit on exactly the postings of the current file whose account is not covered, and per transaction each undeclared non-empty commodity of amounts, costs and assertions must be warned exactly once; none when nothing is declared in scope. For each of the 7 other combinations of the three diagnostics switches (nested, wrapped and dotted payload encodings) the diagnostics must equal the all-on diagnostics minus exactly the switched-off kinds.",
+  note="Declarations in scope = current file, its include tree and, with a root, the root journal's tree. D, P and Y directives are not generated (whether D declares a commodity is not fixed by the property)."),
  "C20": dict(
   technique="rapid-generated multi-file workspaces from the model with exact quantities; hover markdown parsed back and compared as rationals/counts with aggregates computed from the model",
   text="Workspaces of 1..4 journals with amounts of up to 12 decimals in every supported notation are written to disk; hover is requested on every posting account, payee/description, tag name, tag value and amount of the requesting file (root or included file, with and without workspace root). Per-commodity balances are parsed from the markdown and compared, as math/big rationals, with the exact sums of the amounts explicitly posted to that account over the files in scope; posting, transaction and tag usage counts and the amount/cost shown for an amount hover are compared with the model.",
